@@ -21,7 +21,7 @@ from .c20 import norm
 
 ID = "C09"
 RULE = ("generated: every valid problem of C05's bounded generator (object-table groupings, init subsets <= 3 / 4 atoms, "
-        "every fluent x 8 numeral forms, goal subsets + numeric goals, typed and untyped domain); shipped: every file "
+        "every fluent x 16 numeral forms (incl. 007, -0, -0.0, 1E2, 100.50), goal subsets + numeric goals, typed and untyped domain); shipped: every file "
         "under /repo/tests that reads as a PDDL problem, paired with every shipped domain of the same name that parses it. "
         "Compared twice: the re-parsed Problem's public attributes, and the exported text read by pv.sexp; every problem is also exported by a long-lived exporter and written to a file (5 path forms, str / Path) over stale content, and the problem parsed before it over the same Domain object is exported again and compared with its snapshot. "
         "non-trivial = a problem with >= 2 init items or a goal")
